@@ -638,6 +638,9 @@ impl Generator {
         // (worker, to_server?)
         let mut links: Vec<(Wid, bool)> = Vec::new();
         for w in sim.workers.values() {
+            if w.partitioned {
+                continue;
+            }
             if !w.to_worker.is_empty() && !w.stopped {
                 links.push((w.id, false));
             }
@@ -792,12 +795,21 @@ impl Generator {
                 } else {
                     *rng.pick(&live_workers)
                 };
-                let reason = if rng.chance(70, 100) {
+                let h = sim.workers.get(&w);
+                let partitioned = h.map(|h| h.partitioned).unwrap_or(false);
+                let limited = h.map(|h| h.spec.time_limit_s.is_some()).unwrap_or(false);
+                let reason = if rng.chance(70, 100) && !partitioned {
                     Reason::ConnectionLost
                 } else {
                     Reason::HeartbeatLost
                 };
-                Action::Kill { w, reason }
+                // some losses are preceded by a silent phase in which the server still counts on the
+                // worker (more often for workers with a time limit: they may pass it unnoticed)
+                if !partitioned && rng.chance(if limited { 40 } else { 12 }, 100) {
+                    Action::Partition { w }
+                } else {
+                    Action::Kill { w, reason }
+                }
             }
             2 => {
                 let (w, to_server) = self.pick_link(sim)?;
